@@ -2,7 +2,7 @@ SPECIFICATION MCSpec
 CONSTANTS
   Runs = {"A"}
   Mode = "mc"
-  Faithful = {"F8"}
+  Faithful = {}
   Tabs <- MCTabs
   MaxVal = 4
   MaxRho = 3
